@@ -6,7 +6,7 @@ from props import dwtfam
 
 ID = 'C05'
 PROPS_MODULE = 'Props.C05'
-THEOREMS = ['C05_adjoint_zero_line', 'C05_afb_zero_row', 'C05_subsets', 'C05_afb_sym_refuted']
+THEOREMS = ['C05_adjoint_zero_line', 'C05_afb_zero_row', 'C05_afb_per_row', 'C05_subsets', 'C05_afb_sym_refuted']
 VO = ['theories/Props/C05.vo', 'theories/Run/RunDwt.vo']
 RULE = ('correspondence A: AFB1D/AFB2D/SFB1D/SFB2D.backward (torch.autograd.grad with integer cotangents) vs the backward model, all 5 modes, '
         'odd/even/short sizes, N,C>1; oracle: Jacobian J assembled from basis inputs through the public modules, grad == J^T g for random g, '
